@@ -146,6 +146,8 @@ fn gen_use_alloc(wr: &mut Rng, alloc_vals: &[u64], sizes: &Sizes, cfg: &GenCfg) 
         AllocPath::DeserArrayNull,
         AllocPath::DeserMapNull,
         AllocPath::BlockSize,
+        AllocPath::BlockSizeAfterGrowth,
+        AllocPath::BlockSizeAfterGrowth,
         AllocPath::SingleObjectBytes,
         AllocPath::Decompress(CodecKind::Deflate),
         AllocPath::Decompress(CodecKind::Snappy),
@@ -176,6 +178,9 @@ fn gen_use_alloc(wr: &mut Rng, alloc_vals: &[u64], sizes: &Sizes, cfg: &GenCfg) 
         };
         let map_like = matches!(path, AllocPath::DatumMapNull | AllocPath::DeserMapNull);
         let data_cap = if map_like { cfg.max_data / 16 } else { cfg.max_data };
+        if path == AllocPath::BlockSizeAfterGrowth && n < 16 {
+            continue;
+        }
         if n <= data_cap {
             return Op::UseAlloc { path, n, with_data: true, explicit_hr };
         }
@@ -187,6 +192,7 @@ fn gen_use_alloc(wr: &mut Rng, alloc_vals: &[u64], sizes: &Sizes, cfg: &GenCfg) 
     }
     // every candidate was too large to exercise at its edge: a small length that any large limit admits
     let path = *wr.pick(&paths);
+    let path = if path == AllocPath::BlockSizeAfterGrowth { AllocPath::BlockSize } else { path };
     let n = *wr.pick(&[0u64, 1, 5, 300]);
     Op::UseAlloc { path, n, with_data: true, explicit_hr }
 }
